@@ -584,7 +584,7 @@ LEVEL_TEXT += (" R1's path guards are calls of http::StatusCode's own predicates
                "R4/R5 read http_request_handle on the normalised view (an awaited private dispatch function and a stamp applied with Result::map are part of its body).")
 LEVEL_TEXT += (" Also (R6): every potential panic site between an error value and its response is on a reviewed table (no constructor, Display impl or conversion can panic for a representable status) — "
                "a site that tests an Option/Result (unwrap / expect / a match or let-else arm that panics / a panicking closure given to a combinator) is keyed by the tested value and variant, not by its "
-               "spelling — and every writer of an error's header map appends. Also (R5): no Result produced elsewhere is returned whole by http_request_handle, so no Ok response bypasses the stamp.")
+               "spelling — and every writer of an error's header map appends. Also (R5): no Result produced elsewhere is returned whole by http_request_handle, so no Ok response bypasses the stamp. Also (R6): HttpError::headers_mut creates the header map only when there is none.")
 
 
 SELFTEST += [
